@@ -12,6 +12,8 @@ structure RelDrv where
   attempts : Nat := 2
   st : St := {}
   started : Bool := false
+  /-- scripted opener faults for the next `retry` (the newest first; one per name) -/
+  faults : List (Name × Fault) := []
 
 /-- the harness' tagger: the name up to the first dot. -/
 def relTagOf (n : Name) : String := (n.splitOn ".").headD ""
@@ -155,6 +157,18 @@ def parsePFile? (c : Cache) (s : String) : Option PFile :=
     | none => none
   | _ => none
 
+/-- `NAME:PREV` of the `retry` op (`-` = no predecessor). -/
+def parseRFile? (s : String) : Option RFile :=
+  match s.splitOn ":" with
+  | [n, p] => if validName n && (p == "-" || validName p) then some ⟨n, unesc p⟩ else none
+  | _ => none
+
+def parseFault? : String → String → Option Fault
+  | "open", "gone" => some .gone
+  | "open", "eio" => some .openErr
+  | "read", "eio" => some .readErr
+  | _, _ => none
+
 def parseTPart? (s : String) : Option TPart :=
   match s.splitOn ":" with
   | [n, h, sz, len] => match parseInt? sz, parseInt? len with
@@ -291,6 +305,19 @@ def relStep (d : RelDrv) (ws : List String) : RelDrv × String :=
         let perrs := (r.2.filter (· == Eff.pollErr)).length
         ({ d with st := r.1.1, started := true },
           s!"polls={polls} perrs={perrs} done={fmtNames dn} del={fmtNames dl} retry={fmtNames rt} left={fmtNames (r.1.2.map (·.name))} | {fmtState r.1.1}")
+    | none => bad
+  | ["fault", site, n, kind] =>
+    match parseFault? site kind with
+    | some k =>
+      if !validName n then bad
+      else ({ d with faults := (n, k) :: d.faults.filter (fun a => a.1 ≠ n) }, "ok")
+    | none => bad
+  | ["retry", files] =>
+    match (files.splitOn ",").mapM parseRFile? with
+    | some fs =>
+      let r := retryRun d.fx d.st fs d.faults
+      ({ d with st := r.1, started := true, faults := [] },
+        s!"{fmtEffs r.2} | push={fmtPushes r.2} | {fmtState r.1}")
     | none => bad
   | ["track", payloads] =>
     match parsePayloads? payloads with
